@@ -13,8 +13,10 @@ def N(name, kind, parent=None, **kw):
     return d
 
 
-def S(*nodes, phases=None):
-    return {"nodes": list(nodes), "phases": phases}
+def S(*nodes, phases=None, **kw):
+    d = {"nodes": list(nodes), "phases": phases}
+    d.update(kw)
+    return d
 
 
 INNER = ["RLoss", "VLoss", "Converter", "LinReg", "PSwitch", "RectD", "RectM"]
@@ -65,6 +67,9 @@ def dead_shapes():
     c["deadsrc-conv-pload"] = S(N("S", "Source", pol="nonneg"), N("C", "Converter", "S"), N("L", "PLoad", "C"))
     c["deadsrc-depth3"] = S(N("S", "Source", pol="nonneg"), N("W", "PSwitch", "S"), N("G", "LinReg", "W"), N("L", "RLoad", "G"),
                             N("L2", "ILoad", "W"))
+    # two voltage-generating stages cascaded below the dead source, more below them (off-state travels one level per sweep)
+    c["deadsrc-cascade"] = S(N("S", "Source", pol="nonneg", only=()), N("C1", "Converter", "S", only=()), N("G", "LinReg", "C1", only=("vdrop",)),
+                             N("C2", "Converter", "G", only=()), N("W", "PSwitch", "C2", only=("rs",)), N("L", "PLoad", "W", only=()), N("L2", "ILoad", "C2", only=()))
     c["deadsrc-rloss-rect"] = S(N("S", "Source", pol="nonneg"), N("R", "RLoss", "S"), N("D", "RectM", "R"), N("L", "ILoad", "D"))
     c["deadsrc-vloss-rectd"] = S(N("S", "Source", pol="nonneg"), N("V", "VLoss", "S"), N("D", "RectD", "V"), N("L", "PLoad", "D"))
     c["two-src-one-dead"] = S(N("S1", "Source", pol="nonneg"), N("C", "Converter", "S1"), N("L1", "PLoad", "C"),
@@ -83,6 +88,11 @@ def phase_shapes():
     c["conv-inactive-by-rail"] = S(N("S", "Source", rail="VIN"), N("C", "Converter", "S", phases=["a"], rail="3V3", phase_via_rail=True),
                                    N("G", "LinReg", "C"), N("L1", "ILoad", "G"), N("L2", "RLoad", "C"), phases=ph)
     c["src-inactive-by-rail"] = S(N("S", "Source", phases=["b"], rail="BAT", phase_via_rail=True), N("L", "PLoad", "S"), phases=ph)
+    # configurations that name phases which are not defined / were defined only temporarily; components configured first
+    c["undefined-phase-names"] = S(N("S", "Source"), N("C", "Converter", "S", phases=["zz"]), N("L1", "PLoad", "C", phases=["zz"]),
+                                   N("L2", "ILoad", "S", phases=["a", "zz"]), N("L3", "PLoad", "S", phases=["zz"]), phases=ph, comp_phases_first=True)
+    c["phases-redefined"] = S(N("S", "Source"), N("W", "PSwitch", "S", phases=["b", "t"]), N("L1", "ILoad", "W", phases=["t", "a"]),
+                              N("L2", "RLoad", "S", phases=["b"]), phases=ph, comp_phases_first=True, redefine_phases=["a", "t"])
     c["src-inactive"] = S(N("S", "Source", phases=["b"]), N("W", "PSwitch", "S"), N("L", "RLoad", "W"), phases=ph)
     c["switch-inactive-deep"] = S(N("S", "Source"), N("W", "PSwitch", "S", phases=["b"]), N("C", "Converter", "W"),
                                   N("G", "LinReg", "C"), N("L", "ILoad", "G"), phases=ph)
